@@ -97,7 +97,9 @@ def evaluate_tree(case):
     labels = ["tree", f"n={len(values)}"] + S.value_labels(values)
     lo_arg = float(lo) if lo.denominator != 1 else int(lo)
     hi_arg = float(hi) if hi.denominator != 1 else int(hi)
-    o, untouched = sut.inex_tree_subsets(names, values, lo_arg, hi_arg)
+    o, untouched = sut.inex_tree_subsets(names, values, lo_arg, hi_arg, case.get("abandon_after"))
+    if case.get("abandon_after") is not None:
+        labels.append("second-enumeration-of-the-same-tree")
     if not o.ok:
         return Result([Failure(f"{PROP}/tree/exception:{o.exc_type}@{o.where}", o.describe())], labels, False, None, o.describe())
     fails = []
@@ -159,7 +161,10 @@ def tree_cases(draw):
     else:                          # t/k style fractional ends
         a, b = sorted([draw(st.integers(0, 2 * total)), draw(st.integers(0, 2 * total))])
         lo2, hi2 = a, b
-    return {"kind": "tree", "values": values, "lo2": lo2, "hi2": hi2, "nseed": draw(st.integers(0, 3))}
+    case = {"kind": "tree", "values": values, "lo2": lo2, "hi2": hi2, "nseed": draw(st.integers(0, 3))}
+    if draw(st.integers(0, 3)) == 0:
+        case["abandon_after"] = draw(st.integers(0, 4))       # the tree object was already partly enumerated once
+    return case
 
 
 def tree_scope(tier):
